@@ -32,7 +32,8 @@ from lib.core import Ctx, rat
 from lib import stage
 
 ID = "C04"
-LEAN_TARGETS = ["AiuVerif.Props.C04"]
+NEEDS_GEN = True
+LEAN_TARGETS = ["AiuVerif.Props.C04", "AiuVerif.Props.Order"]
 THEOREMS = [
     "AiuVerif.C04.laminar_stage",
     "AiuVerif.C04.laminar_tid",
@@ -48,6 +49,7 @@ THEOREMS = [
     "AiuVerif.C04.error_is_budget",
     "AiuVerif.C04.lane_budget",
     "AiuVerif.C04.moved_only_if_offending",
+    "AiuVerif.Order.overlap_order",   # registration order / guards / shared context, re-decided on the generated sites
 ]
 RULE = ("interval families as X events (plus counter events) on (pid,tid) lanes: exhaustive over one lane with "
         "endpoints in {0..4} (all ordered families of <=3 slices, all multisets of 4; zero-length and "
